@@ -2400,6 +2400,9 @@ class GroupBy:
         max_diff: float | int
             The threshold distance for forming a new sub-group
         """
+        if self.key_is_chunked:
+            # the codes of a chunked group key are local to each chunk
+            self._unify_group_key_chunks()
         return numba_funcs.group_nearby_members(
             group_key=self.group_ikey,
             values=values,
